@@ -17,9 +17,9 @@ func (c08) Technique() string {
 }
 func (c08) Runs(tier string) int {
 	if tier == "thorough" {
-		return 3000000
+		return 4500000
 	}
-	return 200000
+	return 300000
 }
 func (c08) Rule() string {
 	return "history of 3-25 ops on a stack of length 0-4 (all index-option settings): ~65% good mutators, ~35% hostile requests = int-taking methods with indices from {MinInt, -Len-1..Len+1, MaxInt} and any-taking methods of Stack and Condition with the 27-value awkward catalogue (typed nils of depth 1-3, zero Stack/Condition and aliases, funcs, chans, maps, NaN, private-field structs, pointers to pointers), followed by queries over the polluted stack; non-trivial = at least 2 hostile requests fired and at least 2 good mutators followed the first; distinct = hash(op sequence with arguments classes and lengths)"
